@@ -83,6 +83,26 @@ class Pre:
         return z3.Exists([k], z3.And(0 <= k, k < ln, z3.Select(arr, k) == n))
 
 
+def structurally_valid(ex):
+    """assumed at the start of every pass iteration (not re-proved after a transaction; listed as an assumption):
+    single assignment - a value is the output of at most one node, at one position - and no node reads its own output"""
+    sel = z3.Select
+    N = ref_sort(NODE)
+    n1, n2, i, j = z3.Const("n1!sv", N), z3.Const("n2!sv", N), z3.Int("i!sv"), z3.Int("j!sv")
+    outs, ins = ex.heap_arrays(NODE, "outputs"), ex.heap_arrays(NODE, "inputs")
+    o = lambda n, k: sel(sel(outs[0], n), k)  # noqa: E731
+    ssa = z3.ForAll([n1, n2, i, j], z3.Implies(z3.And(0 <= i, i < sel(outs[1], n1), 0 <= j, j < sel(outs[1], n2), o(n1, i) == o(n2, j)), z3.And(n1 == n2, i == j)), patterns=[z3.MultiPattern(o(n1, i), o(n2, j))])
+    noself = z3.ForAll([n1, i, j], z3.Implies(z3.And(0 <= i, i < sel(ins[1], n1), 0 <= j, j < sel(outs[1], n1)), sel(sel(ins[0], n1), i) != o(n1, j)), patterns=[z3.MultiPattern(sel(sel(ins[0], n1), i), o(n1, j))])
+    nonnull = z3.ForAll([n1, j], z3.Implies(z3.And(0 <= j, j < sel(outs[1], n1)), o(n1, j) != null_of(VALUE)), patterns=[o(n1, j)])
+    V = ref_sort(VALUE)
+    v1, v2 = z3.Const("v1!sv", V), z3.Const("v2!sv", V)
+    na = ex.heap_arrays(VALUE, "name")
+    named = lambda t: z3.And(z3.Not(sel(na[0], t)), z3.Length(sel(na[1], t)) > 0)  # noqa: E731
+    uniq = z3.ForAll([v1, v2], z3.Implies(z3.And(named(v1), named(v2), sel(na[1], v1) == sel(na[1], v2)), v1 == v2), patterns=[z3.MultiPattern(sel(na[1], v1), sel(na[1], v2))])
+    ex.assumptions_used.add("the graph at the start of every pass iteration is structurally valid: single assignment, no node reads its own output, value names are unique (NameFixPass); not re-proved after a transaction")
+    return [ssa, noself, nonnull, uniq]
+
+
 def muts(ex):
     return [e for e in ex.events if e and e[0] == "mut"]
 
@@ -254,6 +274,7 @@ def register(w):
         return ([A1, A5], goal)
     w.add_contract(Contract(f"{MO}:<law-T3>", kind="lemma", ensures=[("transpose_reducemean_transpose_equals_reducemean_over_mapped_axes", lemma_t3)], props=["C02", "C12"]))
     register_t11(w)
+    register_casts(w)
     w.trust("A1 Tr(q,Tr(p,x)) = x for mutually inverse p,q; A5 ReduceMean(keepdims=1) commutes with Transpose when the axes are mapped through the permutation (ONNX operator definitions; numerically validated by the witness families)")
 
 
@@ -351,3 +372,111 @@ def register_t11(w):
         return ([A7], Reshape(x, shape_of(x)) == x)
     w.add_contract(Contract(f"{MO}:<law-T11>", kind="lemma", ensures=[("reshape_to_own_shape_is_identity", lemma)], props=["C02"]))
     w.trust("A7 Reshape(x, shape(x)) = x for a target without 0/-1 entries (ONNX Reshape definition); declared integer dims are the run-time dims (C08 before the pass)")
+
+
+# =====================================================================
+# T1 / T2  remove_redundant_casts_ir
+#   T1  Cast(x, to = element type of x)                         ==>  x
+#   T2  Cast(Cast(x : S, to = M), to = S), round trip harmless   ==>  x      (the first Cast goes too when nothing else observes it)
+# =====================================================================
+def register_casts(w):
+    from specs import dtypes as D
+    sel = z3.Select
+    G = w.graph
+    V = ref_sort(VALUE)
+    attr_of, attr_int = w.graph_attr_of, w.graph_attr_int
+    unobserved_except = w.txn_unobserved_except
+    rt_dtype = w.fn("runtime_dtype", V, z3.IntSort())      # ghost: the element type the value has at run time (ONNX code)
+    w.txn_rt_dtype = rt_dtype
+    w.trust("declared element types are the run-time element types when a pass starts (C08 for the lowering), value names are unique (NameFixPass runs first)")
+
+    def truthful(ex):
+        """every declared element type (Value.dtype, Value.type.dtype) is the run-time one"""
+        v = z3.Const("v!tr", V)
+        d = ex.heap_arrays(VALUE, "dtype")
+        ty = ex.heap_arrays(VALUE, "type")[0]
+        tdt = ex.heap_arrays(TT, "dtype")
+        code = lambda arrs, x: sel(arrs[-1], x)  # noqa: E731
+        isnone = lambda arrs, x: sel(arrs[0], x) if len(arrs) > 1 else z3.BoolVal(False)  # noqa: E731
+        return z3.ForAll([v], z3.And(z3.Implies(z3.Not(isnone(d, v)), code(d, v) == rt_dtype(v)),
+                                     z3.Implies(z3.And(sel(ty, v) != null_of(TT), z3.Not(isnone(tdt, sel(ty, v)))), code(tdt, sel(ty, v)) == rt_dtype(v))))
+
+    def post_collect(c: Ctx):
+        r = c.result
+        v = z3.Const("v!cm", V)
+        na = c.ex.heap_arrays(VALUE, "name")
+        nm = sel(na[1], v)
+        return z3.ForAll([v], z3.Implies(z3.And(z3.Not(sel(na[0], v)), z3.Length(nm) > 0, sel(r.present, nm)), sel(r.arrs[0], nm) == rt_dtype(v)))
+    w.add_contract(Contract(f"{MO}:_collect_value_dtypes", params={"graph": Ref(GRAPH), "nodes": Seq(Ref(NODE))}, ret=MapT(Str, Int), assumed=True,
+                            ensures=[("recorded_codes_are_the_declared_types_of_the_named_values", post_collect)],
+                            note="name -> declared element type code of the value carrying that name (names are unique; declarations are truthful)"))
+
+    def wf(ex, graph):
+        n = z3.Const("n!wf", ref_sort(NODE))
+        op = sel(ex.heap_arrays(NODE, "op_type")[0], n)
+        return [("every_node_has_an_output", z3.ForAll([n], sel(ex.heap_arrays(NODE, "outputs")[1], n) >= 1)),
+                ("cast_nodes_have_one_input_and_one_output", z3.ForAll([n], z3.Implies(op == z3.StringVal("Cast"), z3.And(sel(ex.heap_arrays(NODE, "outputs")[1], n) == 1, sel(ex.heap_arrays(NODE, "inputs")[1], n) == 1)))),
+                ("declared_element_types_are_truthful", truthful(ex))]
+
+    def std_cast(P, n):
+        return z3.And(P.op(n) == z3.StringVal("Cast"), P.domain(n) == z3.StringVal(""))
+
+    def hook(lc):
+        ex = lc.ex
+        graph = lc["graph"].term
+        if lc.phase == "assume":
+            ex.events[:] = [e for e in ex.events if not (e and e[0] == "mut")]
+            for f in structurally_valid(ex):
+                ex.pc.append(f)
+            return wf(ex, graph)
+        E = muts(ex)
+        obl = wf(ex, graph)
+        if lc.phase != "inv-step" or not E:
+            return obl
+        kinds = [e[1] for e in E]
+        n = lc.get("n")
+        hv0 = E[0][-2]["hv"]
+        P = Pre(ex, E[0][-3])
+        ok = kinds in (["rauw", "remove"], ["rauw", "remove", "remove"]) and isinstance(n, VRef)
+        obl.append(("txn-effect:T1T2.events_are_bypass_remove", z3.BoolVal(ok)))
+        if not ok:
+            return obl
+        rauw = E[0]
+        a_old, b_new = rauw[2].term, rauw[3].term
+        to = lambda node: attr_int(attr_of(node, z3.StringVal("to"), hv0))  # noqa: E731
+        has_to = lambda node: attr_of(node, z3.StringVal("to"), hv0) != null_of(ATTR)  # noqa: E731
+        x = P.inp(n.term, 0)
+        removed = [e[3].term for e in E[1:]]
+        nxt = lc.get("next_node")
+        is_t2 = isinstance(nxt, VRef) and any(r.eq(nxt.term) for r in removed)
+        if not is_t2:
+            # ---- T1
+            obl.append(("txn-effect:T1.cast_output_replaced_by_its_input_everywhere", z3.And(z3.BoolVal(len(removed) == 1), a_old == P.out(n.term, 0), b_new == x, x != null_of(VALUE), ex.truthy(rauw[4]), removed[0] == n.term, E[1][2].term == graph)))
+            obl.append(("txn-facts:T1.standard_cast_to_the_element_type_its_input_already_has", z3.And(std_cast(P, n.term), P.n_in(n.term) >= 1, has_to(n.term), to(n.term) == rt_dtype(x))))
+            return obl
+        # ---- T2
+        n2 = nxt.term
+        obl.append(("txn-effect:T2.second_cast_output_replaced_by_the_original_value_everywhere", z3.And(a_old == P.out(n2, 0), b_new == x, x != null_of(VALUE), ex.truthy(rauw[4]), z3.And([e[2].term == graph for e in E[1:]]),
+                                                                                                       z3.Or([r == n2 for r in removed]), z3.And([z3.Or(r == n2, r == n.term) for r in removed]))))
+        S, M_ = rt_dtype(x), to(n.term)
+        e = z3.Int("e!t2")
+        int_rows = {k: v[1] for k, v in D.ONNX.items() if isinstance(v[1], tuple) and v[1][0] == "int"}
+        fits = z3.And(z3.Or([S == k for k in int_rows]), z3.Or([M_ == k for k in int_rows]),
+                      z3.ForAll([e], z3.Implies(G.in_vals(x, e), z3.Or([z3.And(M_ == k, D.int_bounds(k)[0] <= e, e <= D.int_bounds(k)[1]) for k in int_rows]))))
+        obl.append(("txn-facts:T2.cast_to_M_then_back_to_the_original_type_S", z3.And(std_cast(P, n.term), std_cast(P, n2), has_to(n.term), has_to(n2), P.inp(n2, 0) == P.out(n.term, 0), to(n2) == S)))
+        obl.append(("txn-facts:T2.round_trip_through_M_changes_no_value", z3.Or(D.included_term(S, M_), fits)))
+        if len(removed) == 2:
+            obl.append(("txn-facts:T2.first_cast_removed_only_when_nothing_else_observes_it", unobserved_except(ex, P, graph, P.out(n.term, 0), [n2], hv0)))
+        return obl
+
+    def axioms(c):
+        return z3.And(G.axiom_value_preserving_ops(c.ex), G.axiom_range(c.ex))
+
+    w.add_contract(Contract(
+        f"{MO}:remove_redundant_casts_ir", params={"graph": Ref(GRAPH)},
+        requires=[("valid_graph", lambda c: z3.And([f for _, f in wf(c.ex, c["graph"].term)])), ("axiom:onnx_semantics", axioms)],
+        loops={0: LoopSpec(invariant=hook, label="transactions"), 1: LoopSpec(heap_unchanged=True, label="scan")},
+        track_alloc=True, ret=NoneT, props=["C02", "C08", "C17"], opaque_externals=True, witnesses=["C02_cast_family"],
+        modifies=[(NODE, "inputs"), (GRAPH, "nodes"), (GRAPH, "outputs")],
+    ))
+    w.trust("A8 Cast(x, to) = x when to is the element type of x; A.1 Cast(S, Cast(M, x)) = x for x of type S when every value of x is representable in M (ONNX Cast: a representable value is cast to itself)")
